@@ -57,3 +57,41 @@ pub fn log_read_all(
         }
     }
 }
+
+/// One call on a `FilterBlockBuilder`.
+#[derive(Clone, Debug)]
+pub enum FilterOp {
+    /// `notify_new_data_block(offset)`
+    Notify(usize),
+    /// `add_key(key)`
+    Add(Vec<u8>),
+}
+
+/// Drive a `FilterBlockBuilder` over a Bloom policy through `ops`, then `finalize`.
+pub fn filter_block_build(bits_per_key: usize, ops: &[FilterOp]) -> Vec<u8> {
+    use crate::tables::verif_exports::FilterBlockBuilder;
+    let policy: Arc<dyn crate::FilterPolicy> = Arc::new(crate::BloomFilterPolicy::new(bits_per_key));
+    let mut builder = FilterBlockBuilder::new(policy);
+    for op in ops {
+        match op {
+            FilterOp::Notify(offset) => builder.notify_new_data_block(*offset),
+            FilterOp::Add(key) => builder.add_key(key.clone()),
+        }
+    }
+    builder.finalize()
+}
+
+/// Parse a filter block and ask it about `(block_offset, key)` pairs.
+pub fn filter_block_match(
+    bits_per_key: usize,
+    data: Vec<u8>,
+    queries: &[(u64, Vec<u8>)],
+) -> Result<Vec<bool>, String> {
+    use crate::tables::verif_exports::FilterBlockReader;
+    let policy: Arc<dyn crate::FilterPolicy> = Arc::new(crate::BloomFilterPolicy::new(bits_per_key));
+    let reader = FilterBlockReader::new(policy, data).map_err(|e| e.to_string())?;
+    Ok(queries
+        .iter()
+        .map(|(offset, key)| reader.key_may_match(*offset, key))
+        .collect())
+}
